@@ -68,3 +68,57 @@ def expand_locals(t, vals, depth=0):
         else:
             out[kk] = vv
     return out
+
+
+def nonnull_on_path(conds, key):
+    """what a path's (canonical condition, truth) pairs say about pointer `key`: True (non-null), False (null), None (nothing).
+    `p`, `p != nullptr`, `nullptr != p`, `!(p == nullptr)`... all arrive here as one of three canonical spellings"""
+    for c, tk in conds:
+        if c == key:
+            return tk
+        if c in ('(%s == null)' % key, '(null == %s)' % key, '(%s == 0)' % key, '(0 == %s)' % key):
+            return not tk
+        if c in ('(%s != null)' % key, '(null != %s)' % key):
+            return tk
+    return None
+
+
+def inline_private(a, c, t):
+    """inlining predicate for fwd.summarize: a non-public helper of the same class is part of its callers' paths (extracting a
+    few statements into a private member function changes nothing a rule should see)"""
+    return bool(c.cls) and c.cls == a.cls and c.key != a.key and bool(c.rec.get('nonpublic')) and len(c.blocks) <= 24
+
+
+def is_pure_expression_fn(c):
+    """a function that only computes and returns a value: no assignment to anything but its own locals, no statement-level call"""
+    from engine import sym
+    from engine.facts import top_term
+    if len(c.blocks) > 6:
+        return False
+    for e in c.events():
+        if e['ev'] in ('decl', 'return'):
+            continue
+        if e['ev'] in ('assign', 'incdec'):
+            l = sym.strip_casts(e.get('lhs') or {})
+            if isinstance(l, dict) and l.get('k') == 'local':
+                continue
+            return False
+        if e['ev'] == 'expr':
+            t = top_term(e)
+            if isinstance(t, dict) and t.get('k') in ('call', 'construct', 'new', 'delete'):
+                # sub-expression calls of the returned value are evaluated as their own elements: allowed when const / static / free
+                if t.get('k') == 'call' and (t.get('constm') or 'recv' not in t):
+                    continue
+                return False
+            continue
+        return False
+    return True
+
+
+def inline_local_pure(a, c, t):
+    """inlining predicate: a helper only this translation unit (internal linkage) or only this class (non-public) can call, which
+    merely computes a value, is a name for that expression"""
+    if c.key == a.key or c.pattern:
+        return False
+    local = (bool(c.rec.get('internal')) and not c.cls) or (bool(c.cls) and c.cls == a.cls and bool(c.rec.get('nonpublic')))
+    return local and is_pure_expression_fn(c)
